@@ -27,6 +27,7 @@ type JobSpec struct {
 	PageSize      int
 	ReplayRestore bool // native replay restores the FS image captured at the violation and runs the harness in phase-2 mode
 	Witness       bool // vacuity twin: must end in the violation "witness"
+	ReplayCount   int  // run the native replay this many times (map-iteration-order dependent harnesses)
 	NoReplay      bool // violations of this job cannot be replayed natively (schedule/fault harness); see DESIGN
 }
 
